@@ -213,6 +213,36 @@ fn gen_c16(tier: &Tier, rng: &mut Rng, w: usize, nw: usize, out: &mut Vec<Case>)
             );
         }
     }
+    // payloads embedding complete frames / start and end look-alikes at every offset mod 4, with
+    // capacities around the inner and the outer payload length (what is delivered after the
+    // out-of-memory point must be an intact frame of the stream, never a piece of the big payload)
+    for k in 0..(if tier.thorough { 4000 } else { 300 }) / nw {
+        let inner = rand_payload(rng, 6);
+        let fi = spec::frame(&inner);
+        let mut p = vec![0x33u8; (k + w) % 4];
+        match rng.below(4) {
+            0 => p.extend_from_slice(&fi),
+            1 => p.extend_from_slice(&spec::START),
+            2 => p.extend_from_slice(&fi[fi.len() - 8..]),
+            _ => {
+                p.extend_from_slice(&fi);
+                p.extend_from_slice(&fi);
+            }
+        }
+        p.extend(alpha_range(rng, 0, 3));
+        if p.len() > 47 {
+            continue;
+        }
+        let p2 = rand_payload(rng, 6);
+        for n in [inner.len().saturating_sub(1), inner.len(), p.len() - 1, p.len()] {
+            if cap_supported(n) {
+                out.push(
+                    Case::new("embedded-frame", vec![format!("dec {} {} {} F", n, tok(&spec::frame(&p)), tok(&spec::frame(&p2)))])
+                        .with_aux(vec![hex(&p), hex(&p2), n.to_string()]),
+                );
+            }
+        }
+    }
     if w < 4 {
         // capacities and payload lengths around 2^16 (length fields of the buffer must not be narrower than usize)
         let l = [65535usize, 65536, 65537, 70000][w];
